@@ -116,8 +116,13 @@ async function check (leaf, resps) {
   try {
     const kind = r.parseIn.kind
     if (kind !== 'module') {
-      const x = run(leaf.code, kind); const y = run(r.content, kind)
-      if (x !== y) v('strictness-changed', leaf.scope, `strictness probe: input ${x}, content ${y}`)
+      // a program whose INPUT already throws (e.g. `'use strict'\n('use strict')` is a call without ASI) decides nothing
+      let x; let inputThrew = false
+      try { x = run(leaf.code, kind) } catch (e) { inputThrew = true; res.notes = { input_probe_throws: 1 } }
+      if (!inputThrew) {
+        const y = run(r.content, kind)
+        if (x !== y) v('strictness-changed', leaf.scope, `strictness probe: input ${x}, content ${y}`)
+      }
       res.evaluations = 3
     }
   } catch (e) { v('probe-threw', leaf.scope, String(e).slice(0, 200)) }
